@@ -330,9 +330,16 @@ impl Prop for P {
                 if !ok0 {
                     return "S:precondition-failed\tM:-".to_string();
                 }
+                let orig = f.clone();
                 f[pos..pos + nb.len()].copy_from_slice(&nb);
                 let (_, ok, _, s) = outcome(&f, None);
-                format!("S:{}\tM:{}", if ok { "OK" } else { "notok" }, s)
+                // the same altered bytes attached to the already opened file through map_data
+                // (container swap): open-or-verify must fail on that route as well
+                let via_map = match Fst::new(orig).and_then(|o| o.map_data(|_| f.clone())) {
+                    Err(_) => false,
+                    Ok(m) => m.as_bytes() != &f[..] || m.verify().is_ok(),
+                };
+                format!("S:{}\tM:{}", if ok { "OK" } else if via_map { "OK-via-map_data" } else { "notok" }, s)
             }
             _ => "S:BADCASE\tM:BADCASE".to_string(),
         }
